@@ -154,6 +154,26 @@ Fixpoint eval_map_with (look : str -> option str) (m : rmap) : option gmap :=
 Definition eval_val (st : gmap) := eval_with (fun k => assoc k st).
 Definition eval_map (st : gmap) := eval_map_with (fun k => assoc k st).
 
+(* ---------- defaults: / vars: as written (rolebase.go kvStoreUnmarshalYAMLWithTags) ----------
+   An entry of a role's defaults / vars block is written as a plain scalar (key: "text"), in the
+   annotated form key: !public {value: "text", type: ..., label: ...} (the value may be left
+   out: the entry then defines the empty string, as coded), or as something else (an untagged
+   mapping, a sequence), which is not a definition.  An EMPTY text is a definition in every form. *)
+Inductive wentry := WPlain (v : tval) | WPublic (v : option tval) | WOther.
+Definition wmap := list (str * wentry).
+Definition entry_def (e : wentry) : option tval :=
+  match e with
+  | WPlain v => Some v
+  | WPublic (Some v) => Some v
+  | WPublic None => Some (VLit [])
+  | WOther => None
+  end.
+Fixpoint decode (w : wmap) : rmap :=
+  match w with
+  | [] => []
+  | (k, e) :: r => match entry_def e with Some v => (k, v) :: decode r | None => decode r end
+  end.
+
 (* ---------- loading a role tree (ProcessTemplates) ---------- *)
 (* a role as written in the workflow; [name] = None: literal name "r"; Some k: "n{{ k }}".
    A role with children is an aggregator, a childless one a task or call role (the three
@@ -218,9 +238,9 @@ Definition eval_range_with (look : str -> option str) (r : irange) : option (lis
 Definition eval_range (st : gmap) := eval_range_with (fun k => assoc k st).
 
 Inductive rtree :=
-| RRole (name : option str) (defaults vars : rmap) (children : list rtree)
+| RRole (name : option str) (defaults vars : wmap) (children : list rtree)
 | RIter (var : str) (rng : irange) (tpl : rtree)
-| RIncl (name : option str) (defaults vars : rmap) (sdefaults svars : rmap)
+| RIncl (name : option str) (defaults vars : wmap) (sdefaults svars : wmap)
         (children : list rtree).
 
 Inductive ltree := LNode (name : str) (lv : level) (hid : list level) (children : list ltree).
@@ -279,7 +299,7 @@ End ChildRecursion.
 Fixpoint load (anc : path) (locals : gmap) (t : rtree) : option (list ltree) :=
   match t with
   | RRole nm d v ch =>
-    match resolve_level anc locals nm d v with
+    match resolve_level anc locals nm (decode d) (decode v) with
     | None => None
     | Some (n, lv) =>
       (* setParent + ProcessTemplates of every child, in order; the first error aborts *)
@@ -290,12 +310,12 @@ Fixpoint load (anc : path) (locals : gmap) (t : rtree) : option (list ltree) :=
     end
   | RIncl nm d v sd sv ch =>
     (* the include role's own templates first, like any role (iterator locals -> its vars) *)
-    match resolve_level anc locals nm d v with
+    match resolve_level anc locals nm (decode d) (decode v) with
     | None => None
     | Some (n, lvi) =>
       (* the sub-workflow root, parented to the include role, takes the include role's place
          (fresh Locals, the include role's name) and processes its templates as an aggregator *)
-      match resolve_level (lvi :: anc) [] None sd sv with
+      match resolve_level (lvi :: anc) [] None (decode sd) (decode sv) with
       | None => None
       | Some (_, lvs) =>
         match opt_concat_map (load (lvs :: lvi :: anc) []) ch with
@@ -474,6 +494,9 @@ Definition corr14 (c : c14_case) : bool :=
      9  the variable of an iterator is not a var of the role generated for one of its values
         (for a generated include role: of its own maps, below the sub-workflow root's)
     10  a call does not see special > the consolidated stack of its role
+    13  an entry written as a definition in a role's defaults / vars block (plain or annotated
+        !public form) is not in the role's own map with the written text, or something that is not
+        a definition is (code 3 when the written text is empty)
     12  the roles an iterator generated are not one per value of its range as evaluated with the
         nearest definitions visible at the iterator's parent (as of loading time), in order
     11  a role in the subtree of an include role (the include role itself included) does not see
@@ -555,7 +578,39 @@ Definition local_code (vs : list view) (a : list N) (var x : str) : N :=
   | None => 12
   end.
 
-Fixpoint mon_iters (env : level) (vs : list view) (t : rtree) (addr : list N) {struct t} : N :=
+(* what was written as a definition in a role's defaults / vars block - in the plain or in the
+   annotated form, empty or not - must be in the role's own map with the written text (a
+   reference: must be there at all); what is not a definition must not be there.  [skip]: keys
+   the iterator locals of the role overwrite.  Code 3 when the written text is empty, else 13. *)
+Definition written_code (w : wmap) (m : gmap) (skip : list str) : N :=
+  first_code (map (fun ke =>
+    let k := fst ke in
+    if mem_str k skip then 0 else
+    match snd ke with
+    | WPlain (VLit x) | WPublic (Some (VLit x)) =>
+      if ostr_eqb (assoc k m) (Some x) then 0 else match x with [] => 3 | _ => 13 end
+    | WPlain (VRef _) | WPublic (Some (VRef _)) => if has k m then 0 else 13
+    | WPublic None => 0
+    | WOther => if has k m then 13 else 0
+    end) w).
+
+Definition own_written_code (vs : list view) (t : rtree) (addr : list N) (loc : list str) : N :=
+  match find_view vs addr with
+  | None => 12
+  | Some w =>
+    match t with
+    | RRole _ d v _ =>
+      first_code [written_code d (l_defaults (w_own w)) []; written_code v (l_vars (w_own w)) loc]
+    | RIncl _ d v sd sv _ =>
+      let own := hd (mkLevel [] [] []) (w_hid w) in
+      first_code [written_code d (l_defaults own) []; written_code v (l_vars own) loc;
+                  written_code sd (l_defaults (w_own w)) []; written_code sv (l_vars (w_own w)) []]
+    | RIter _ _ _ => 0
+    end
+  end.
+
+Fixpoint mon_iters (env : level) (vs : list view) (t : rtree) (addr : list N) (loc : list str)
+         {struct t} : N :=
   let walk :=
     fix go (l : list rtree) (idx : N) {struct l} : N * N :=
       match l with
@@ -568,12 +623,12 @@ Fixpoint mon_iters (env : level) (vs : list view) (t : rtree) (addr : list N) {s
           | Some vals =>
             let here := first_code
                           (flat_mapi (fun j x => [local_code vs (addr ++ [j]) var x;
-                                                  mon_iters env vs tpl (addr ++ [j])]) idx vals) in
+                                                  mon_iters env vs tpl (addr ++ [j]) [var]]) idx vals) in
             let '(cr, n) := go r (idx + Nlen vals) in
             (first_code [here; cr], n)
           end
         | _ =>
-          let here := mon_iters env vs c (addr ++ [idx]) in
+          let here := mon_iters env vs c (addr ++ [idx]) [] in
           let '(cr, n) := go r (idx + 1) in
           (first_code [here; cr], n)
         end
@@ -581,6 +636,7 @@ Fixpoint mon_iters (env : level) (vs : list view) (t : rtree) (addr : list N) {s
   let finish := fun (ch : list rtree) =>
     let '(c, n) := walk ch 0 in
     if c =? 0 then (if n =? child_count vs addr then 0 else 12) else c in
+  let finish := fun ch => first_code [own_written_code vs t addr loc; finish ch] in
   match t with
   | RRole _ _ _ ch => finish ch
   | RIncl _ _ _ _ _ ch => finish ch
@@ -611,7 +667,7 @@ Definition mon14 (c : c14_case) : N :=
     first_code (map (fun s => check_vals 5 keys (fun k => first_hit k (srcs s)) (nth_row o s))
                     stage_list)
   | CTree env t ops (Some vs) =>
-    first_code (map (mon_view env vs) vs ++ [mon_iters env vs t [0]])
+    first_code (map (mon_view env vs) vs ++ [mon_iters env vs t [0] []])
   | CTree _ _ _ None => 0
   | CTask p special cd cv keys o_cmd o_prop =>
     let wfs := special :: sources p in
